@@ -258,6 +258,14 @@ func (p *VP9Packet) Unmarshal(packet []byte) ([]byte, error) { // nolint:cyclop
 		return nil, errShortPacket
 	}
 
+	// fields of optional parts are decoded only when the part is present: start
+	// from their zero values so that a reused receiver equals a fresh one
+	p.PictureID, p.TID, p.U, p.SID, p.D, p.TL0PICIDX = 0, 0, false, 0, false, 0
+	p.PDiff = nil
+	p.NS, p.Y, p.G, p.NG = 0, false, false, 0
+	p.Width, p.Height = nil, nil
+	p.PGTID, p.PGU, p.PGPDiff = nil, nil, nil
+
 	p.I = packet[0]&0x80 != 0
 	p.P = packet[0]&0x40 != 0
 	p.L = packet[0]&0x20 != 0
